@@ -240,6 +240,11 @@ class SymExec:
                 if len(outs) > 1:
                     # cannot continue a single state: signal forking to the statement level
                     raise _Fork(outs)
+                body_ = U.body_without_docstring(tgt[2])
+                if len(body_) == 1 and isinstance(body_[0], ast.Raise):
+                    # abstract method (raise NotImplementedError): the concrete override is unknown here -> opaque value
+                    st.calls.append((name, args))
+                    return ('call', name, args, kwargs)
                 raise _Dead()
             if is_self:
                 # function-valued field or unknown
